@@ -4,43 +4,9 @@
 import MotoModel.Model.LineTools
 import MotoModel.Spec.LineTools
 import MotoModel.Proofs.LinesConcat
+import MotoModel.Proofs.Digits
 namespace Moto.C16
 open Moto Moto.Spec
-
-theorem digitRun_eq_takeWhile : ∀ (l : Str), digitRun l = l.takeWhile isDigit
-  | [] => rfl
-  | c :: r => by
-    simp only [digitRun, List.takeWhile_cons, isDigit]
-    by_cases h : 48 ≤ c ∧ c ≤ 57
-    · rw [if_pos h, digitRun_eq_takeWhile r]
-      simp [h.1, h.2]
-    · rw [if_neg h]
-      have : (decide (48 ≤ c) && decide (c ≤ 57)) = false := by
-        simp only [Bool.and_eq_false_iff, decide_eq_false_iff_not]
-        by_cases h1 : 48 ≤ c
-        · right; exact fun h2 => h ⟨h1, h2⟩
-        · left; exact h1
-      simp [this]
-
-theorem decimal_append (xs : Str) (d : Nat) : decimalFromLast (xs ++ [d]) = decimalFromLast xs + (d - 48) * 10 ^ xs.length := by
-  induction xs with
-  | nil => simp [decimalFromLast]
-  | cons x r ih =>
-    simp only [List.cons_append, decimalFromLast, ih, List.length_cons, Nat.pow_succ]
-    rw [Nat.mul_add, ← Nat.mul_assoc, Nat.mul_comm 10 (d - 48), Nat.mul_assoc, Nat.mul_comm 10 (10 ^ r.length)]
-    omega
-
-theorem foldl_horner : ∀ (ds : Str) (a : Nat),
-    ds.foldl (fun a d => a * 10 + (d - 48)) a = a * 10 ^ ds.length + decimalFromLast ds.reverse
-  | [], a => by simp [decimalFromLast]
-  | d :: r, a => by
-    simp only [List.foldl_cons, List.reverse_cons, List.length_cons]
-    rw [foldl_horner r, decimal_append, List.length_reverse, Nat.pow_succ, Nat.add_mul, Nat.mul_assoc, Nat.mul_comm 10 (10 ^ r.length)]
-    omega
-
-theorem parseNat_eq_decimal (ds : Str) : parseNat ds = decimalFromLast ds.reverse := by
-  unfold parseNat
-  rw [foldl_horner]; simp
 
 /-- **C16 (what "begins with a number" means)**: the tool's test — the regular expression `^([1-9][0-9]*)`, value by
     `int()` — is the specification's: a non-empty leading run of digits that does not start with 0, valued as a decimal
